@@ -60,14 +60,18 @@ class BufferWriter {
     const std::size_t length = end - begin;
     const std::size_t length_bytes = length * element_size;
 
-    std::memcpy(&buffer_[index_], begin, length_bytes);
+    // Zero-length transfers may come with null pointers (e.g. the data() of an
+    // empty vector), which memcpy does not accept.
+    if (length_bytes > 0)
+      std::memcpy(&buffer_[index_], begin, length_bytes);
     index_ += length_bytes;
     return {};
   }
 
   Status<void> Skip(std::size_t padding_bytes,
                     std::uint8_t padding_value = 0x00) {
-    std::memset(&buffer_[index_], padding_value, padding_bytes);
+    if (padding_bytes > 0)
+      std::memset(&buffer_[index_], padding_value, padding_bytes);
     index_ += padding_bytes;
     return {};
   }
